@@ -22,7 +22,7 @@ EXPLICIT = {
     'quad': ["(lambda x: x**2+exp(-x), [0, 2])", "(lambda x: exp(-x**2), [-inf, inf])", "(lambda x, y: x*y+1, [0, 1], [0, 2])"],
     'quadgl': ["(lambda x: cos(x), [0, 1])"],
     'quadts': ["(lambda x: 1/(1+x**2), [0, 3])"],
-    'quadosc': ["(lambda x: sin(x)/x, [0, inf])", ],
+    'quadosc': ["(lambda x: sin(x)/x, [0, inf], omega=1)"],
     'quadsubdiv': ["(lambda x: sqrt(x), [0, 1])"],
     'diff': ["(lambda x: x**3+sin(x), mpf(0.5))", "(lambda x: exp(2*x), 1, 3)", "(lambda x, y: x*y**2, (1, 2), (1, 1))"],
     'diffs': ["(lambda x: exp(x), 1, 3)"],
@@ -109,7 +109,7 @@ EXPLICIT = {
     'coulombf': ["(2, 0.5, 3.5)"], 'coulombg': ["(2, 0.5, 3.5)"], 'coulombc': ["(2, 0.5)"], 'whitm': ["(0.5, 0.25, 1.5)"], 'whitw': ["(0.5, 0.25, 1.5)"],
     'hyperu': ["(2, 0.5, 1.5)"], 'lommels1': ["(0.5, 0.25, 1.5)"], 'lommels2': ["(0.5, 0.25, 1.5)"], 'pcfd': ["(0.5, 1.5)"], 'pcfu': ["(0.5, 1.5)"], 'pcfv': ["(0.5, 1.5)"], 'pcfw': ["(0.5, 1.5)"],
     'besseljzero': ["(0, 3)", "(1.5, 2, derivative=1)"], 'besselyzero': ["(0, 3)"], 'airyaizero': ["(3)"], 'airybizero': ["(3)"],
-    'zetazero': ["(2)"], 'nzeros': ["(30)"], 'grampoint': ["(5)"], 'backlunds': ["(30)"], 'siegelz': ["(14.5)"], 'siegeltheta': ["(14.5)"],
+    'zetazero': ["(2)"], 'rs_zeta': ["(mpc(0.5, 1000))", "(mpc(0.5, 1e6))"], 'rs_z': ["(1000)", "(1e6)"], 'nzeros': ["(30)"], 'grampoint': ["(5)"], 'backlunds': ["(30)"], 'siegelz': ["(14.5)"], 'siegeltheta': ["(14.5)"],
     'lerchphi': ["(0.5, 2, 3)"], 'polylog': ["(2, 0.5)", "(3, mpc(0.25, 0.5))"], 'dirichlet': ["(2, [0, 1, -1])"], 'stieltjes': ["(2)"], 'primezeta': ["(2.5)"],
     'zeta': ["(2.5)", "(mpc(0.5, 14))", "(3, 0.25)", "(2, 1, 1)"], 'polyexp': ["(2, 0.5)"], 'bell': ["(5, 0.5)", "(6)"], 'stirling1': ["(6, 3)"], 'stirling2': ["(6, 3)"],
     'gammainc': ["(2.5, 1)", "(0.5, 1, 3)", "(2, 0, 1.5, regularized=True)"], 'betainc': ["(2, 3, 0, 0.5)", "(2, 3, 0.25, 0.75, regularized=True)"],
@@ -191,7 +191,7 @@ def discover():
         for expr in cands:
             ok, dt, info = try_call(mp, ns, name, expr)
             mp.prec = 53
-            if ok and dt < 2.0:
+            if (ok or (name in ('rs_zeta', 'rs_z') and 'NotImplemented' in info)) and dt < 2.0:
                 got.append({'args': expr, 'ms': round(dt * 1000, 1), 'ret': info})
                 if not explicit and len(got) >= 2:
                     break
